@@ -46,7 +46,7 @@ def part_definitions(ctx, part):
         if kind == "class":
             lines.append("g = %s.new" % qual)
         for d in defs:
-            if d["vis"] != "public":
+            if d["vis"] != "public" or d.get("call_vis") == "private":
                 continue
             if kind == "module" and not d["class_method"]:
                 continue
@@ -73,7 +73,7 @@ def part_definitions(ctx, part):
         for it in items:
             if it[0] in ("private", "protected"):
                 sect = True
-            if sect and it[0] in ("defself", "singleton"):
+            if sect and it[0] in ("defself", "singleton") or it[0] in ("privdef", "privsym"):
                 part.nontrivial.add(src)
         data = {"program": src}
         # every definition has a hint on the row of its def token, tagged as Ruby says
